@@ -203,33 +203,6 @@ Qed.
 
 (** * eth gate against the IP gate of the other two endpoints *)
 
-Definition eth_same_clients_full : Prop :=
-  forall cfg c, ip_list_configured cfg = true ->
-                eth_ip_gate cfg c = ip_gate (init cfg) c.
-
-(** list configured under "whitlist" only: eth serves everyone *)
-Theorem eth_same_clients_refuted : ~ eth_same_clients_full.
-Proof.
-  intro H.
-  specialize (H (mkConfig [] ["10.39.1.1"] [] [] [] [] "" "") (V4 192 0 2 2) eq_refl).
-  vm_compute in H. discriminate.
-Qed.
-
-(** the other direction: whitlist = ["*"] next to a restrictive whitelist makes the
-    other endpoints wildcard while eth stays restricted *)
-Theorem eth_stricter_witness :
-  let cfg := mkConfig ["10.39.1.1"] ["*"] [] [] [] [] "" "" in
-  ip_list_configured cfg = true /\
-  eth_ip_gate cfg (V4 192 0 2 2) = false /\ ip_gate (init cfg) (V4 192 0 2 2) = true.
-Proof. vm_compute. repeat split. Qed.
-
-(** guard: the list sits under "whitelist", and "whitlist" does not turn the other
-    endpoints into a wildcard behind eth's back *)
-Definition eth_guard (cfg : config) : bool :=
-  negb (is_nil (c_whitelist cfg))
-  && (negb (is_star (c_whitlist cfg))
-      || is_star (c_whitelist cfg) || mem "0.0.0.0" (c_whitelist cfg)).
-
 Lemma existsb_eth : forall t l,
   existsb (fun a => String.eqb a "0.0.0.0" || String.eqb a t) l
   = mem "0.0.0.0" l || mem t l.
@@ -241,41 +214,39 @@ Proof.
     (existsb (String.eqb "0.0.0.0") l), (existsb (String.eqb t) l); reflexivity.
 Qed.
 
-Theorem eth_same_clients_partial : forall cfg c,
-  eth_guard cfg = true -> eth_ip_gate cfg c = ip_gate (init cfg) c.
+(** for a non-empty IP list under either key the eth gate lets in exactly the
+    addresses the JSON-RPC and gRPC gates let in *)
+Theorem eth_same_clients : forall cfg c,
+  ip_list_configured cfg = true -> eth_ip_gate cfg c = ip_gate (init cfg) c.
 Proof.
-  intros cfg c Hg. unfold eth_guard in Hg.
-  apply andb_true_iff in Hg as [Hne Hg].
-  unfold eth_ip_gate, ip_gate. simpl s_ip. unfold init_ip.
+  intros cfg c Hcfg. unfold ip_list_configured in Hcfg.
+  unfold eth_ip_gate, eth_list, ip_gate. simpl s_ip. unfold init_ip.
   rewrite <- orb_assoc. f_equal.
-  apply negb_true_iff in Hne. rewrite Hne. simpl.
-  destruct (is_star (c_whitelist cfg)) eqn:Hs1; [reflexivity|].
-  rewrite existsb_eth.
-  destruct (is_star (c_whitlist cfg)) eqn:Hs2.
-  - simpl in Hg. rewrite Hg. reflexivity.
-  - reflexivity.
+  destruct (is_nil (c_whitelist cfg)) eqn:Hn1;
+    destruct (is_nil (c_whitlist cfg)) eqn:Hn2; simpl in Hcfg; try discriminate; clear Hcfg.
+  - (* list under "whitlist" only *)
+    apply is_nil_eq in Hn1. rewrite Hn1. simpl. rewrite Hn2.
+    destruct (is_star (c_whitlist cfg)); [reflexivity|]. simpl. apply existsb_eth.
+  - (* list under "whitelist" only *)
+    apply is_nil_eq in Hn2. rewrite Hn2. simpl. rewrite Hn1. simpl.
+    destruct (is_star (c_whitelist cfg)); [reflexivity|]. apply existsb_eth.
+  - (* both keys *)
+    simpl. destruct (is_star (c_whitlist cfg)) eqn:Hs2.
+    + rewrite Hn2, Hs2. simpl. destruct (is_star (c_whitelist cfg)); reflexivity.
+    + rewrite Hn1. simpl.
+      destruct (is_star (c_whitelist cfg)); [reflexivity|]. apply existsb_eth.
 Qed.
 
-(** the guard is exact: outside it (with a list configured) the two gates differ on
-    some address as soon as one unlisted address exists *)
-Theorem eth_guard_exact : forall cfg c,
-  ip_list_configured cfg = true -> eth_guard cfg = false ->
-  is_loopback c = false ->
-  mem (lookup_text c) (c_whitelist cfg) = false ->
-  eth_ip_gate cfg c <> ip_gate (init cfg) c
-  \/ (is_nil (c_whitelist cfg) = true /\ ip_gate (init cfg) c = true).
+(** the behaviour the eth endpoint keeps: no IP list at all = every address is served
+    (the other two endpoints then serve 127.0.0.1 only) *)
+Theorem eth_no_list_serves_all : forall cfg c,
+  ip_list_configured cfg = false -> eth_ip_gate cfg c = true.
 Proof.
-  intros cfg c Hcfg Hg Hlb Hnm. unfold eth_guard in Hg.
-  unfold ip_list_configured in Hcfg.
-  destruct (is_nil (c_whitelist cfg)) eqn:Hn1.
-  - (* only whitlist: eth serves c; the others accept c only if listed there *)
-    destruct (ip_gate (init cfg) c) eqn:Hip; [right; split; reflexivity|left].
-    unfold eth_ip_gate. rewrite Hn1. simpl. now rewrite orb_true_r.
-  - left. simpl in Hg.
-    apply orb_false_iff in Hg as [Hg H0]. apply orb_false_iff in Hg as [Hs2 Hs1].
-    apply negb_false_iff in Hs2.
-    unfold eth_ip_gate, ip_gate. simpl s_ip. unfold init_ip.
-    rewrite Hlb, Hn1, Hs1, Hs2. simpl. rewrite existsb_eth, H0, Hnm. simpl. discriminate.
+  intros cfg c Hcfg. unfold ip_list_configured in Hcfg.
+  apply orb_false_iff in Hcfg as [H1 H2].
+  apply negb_false_iff in H1. apply negb_false_iff in H2.
+  unfold eth_ip_gate, eth_list. rewrite H1. simpl. rewrite H2. simpl.
+  apply orb_true_r.
 Qed.
 
 (** * non-vacuity *)
@@ -319,8 +290,16 @@ Example grpc_partial_nonvacuous :
   grpc_run ex_cfg refute_tbl (V4 192 0 2 2) "/types.chain33/IsSync" = GUnimpl.
 Proof. vm_compute. repeat split; reflexivity. Qed.
 
-Example eth_guard_nonvacuous :
-  eth_guard ex_cfg = true /\ ip_list_configured ex_cfg = true /\
+(** lists under "whitlist" only, and a whitlist star next to a restrictive whitelist:
+    the two configurations on which the eth gate used to differ from the other gates *)
+Example eth_same_clients_nonvacuous :
+  let only_whitlist := mkConfig [] ["10.39.1.1"] [] [] [] [] "" "" in
+  let star_beside := mkConfig ["10.39.1.1"] ["*"] [] [] [] [] "" "" in
+  ip_list_configured ex_cfg = true /\
   eth_ip_gate ex_cfg (V4 192 0 2 2) = true /\ eth_ip_gate ex_cfg (V4 10 39 1 1) = false /\
-  eth_ip_gate ex_cfg (V4Mapped 192 0 2 2) = true.
+  eth_ip_gate ex_cfg (V4Mapped 192 0 2 2) = true /\
+  ip_list_configured only_whitlist = true /\
+  eth_ip_gate only_whitlist (V4 192 0 2 2) = false /\ eth_ip_gate only_whitlist (V4 10 39 1 1) = true /\
+  ip_list_configured star_beside = true /\
+  eth_ip_gate star_beside (V4 192 0 2 2) = true.
 Proof. vm_compute. repeat split; reflexivity. Qed.
